@@ -346,8 +346,12 @@ class _NoZeroconf:
     zeroconf = None
 
 
-def new_object_graph(dirpath, pairing_file=PAIRING_FILE):
-    """What a starting process builds: file-backed cache, controller with all three transports."""
+ALL_TRANSPORTS = ("IP", "CoAP", "BLE")
+
+
+def new_object_graph(dirpath, pairing_file=PAIRING_FILE, enabled=ALL_TRANSPORTS):
+    """What a starting process builds: file-backed cache, controller with the transports that are available
+    in that process (Controller.async_start registers them according to *_TRANSPORT_SUPPORTED)."""
     import pathlib
 
     from aiohomekit.characteristic_cache import CharacteristicCacheFile
@@ -360,9 +364,12 @@ def new_object_graph(dirpath, pairing_file=PAIRING_FILE):
     cache = CharacteristicCacheFile(pathlib.Path(os.path.join(dirpath, CACHE_FILE)))
     zc = _NoZeroconf()
     c = Controller(async_zeroconf_instance=zc, char_cache=cache)
-    c.transports[TransportType.IP] = IpController(char_cache=cache, zeroconf_instance=zc)
-    c.transports[TransportType.COAP] = CoAPController(char_cache=cache, zeroconf_instance=zc)
-    c.transports[TransportType.BLE] = BleController(char_cache=cache)
+    if "IP" in enabled:
+        c.transports[TransportType.IP] = IpController(char_cache=cache, zeroconf_instance=zc)
+    if "CoAP" in enabled:
+        c.transports[TransportType.COAP] = CoAPController(char_cache=cache, zeroconf_instance=zc)
+    if "BLE" in enabled:
+        c.transports[TransportType.BLE] = BleController(char_cache=cache)
     return cache, c
 
 
@@ -436,15 +443,15 @@ def proj_accessories(controller):
 # ---------------------------------------------------------------------------------------
 # restart: what a fresh process loads from a directory
 # ---------------------------------------------------------------------------------------
-def restart(dirpath, pairing_file=PAIRING_FILE, want_db=True):
-    return restart_graph(dirpath, pairing_file, want_db)[0]
+def restart(dirpath, pairing_file=PAIRING_FILE, want_db=True, enabled=ALL_TRANSPORTS):
+    return restart_graph(dirpath, pairing_file, want_db, enabled)[0]
 
 
-def restart_graph(dirpath, pairing_file=PAIRING_FILE, want_db=True):
+def restart_graph(dirpath, pairing_file=PAIRING_FILE, want_db=True, enabled=ALL_TRANSPORTS):
     def go():
         res = {"exc": None, "stage": None, "storage": None, "pair": None, "db": None}
         try:
-            cache, c = new_object_graph(dirpath, pairing_file)
+            cache, c = new_object_graph(dirpath, pairing_file, enabled)
         except Exception as ex:  # noqa: BLE001
             res["exc"], res["stage"] = f"{type(ex).__name__}: {ex}".replace(dirpath, "<dir>")[:300], "cache"
             return res, None
@@ -616,9 +623,13 @@ def _independent_doc(bs):
         return None
 
 
+EVERY_BYTE_LIMIT = 4096          # the quick tier lowers these (harness/props/c20.py)
+CLASS_SAMPLES = (16, 12)         # seeded cuts after structural characters / anywhere, per stream
+
+
 def cut_set(rng, streams, every_byte):
     top = max([len(s) for s in streams] + [0])
-    if every_byte and top <= 4096:
+    if every_byte and top <= EVERY_BYTE_LIMIT:
         return list(range(top + 1))
     cuts = set()
     for s in streams:
@@ -631,9 +642,9 @@ def cut_set(rng, streams, every_byte):
             cuts.update(x for x in (i, i + 1) if x <= n)
         # after structural characters (seeded sample)
         struct = [i + 1 for i, b in enumerate(s) if b in b'{}[],:"']
-        for _ in range(min(16, len(struct))):
+        for _ in range(min(CLASS_SAMPLES[0], len(struct))):
             cuts.add(struct[rng.randrange(len(struct))])
-        for _ in range(12):
+        for _ in range(CLASS_SAMPLES[1]):
             cuts.add(rng.randrange(n + 1))
     return sorted(cuts)
 
@@ -1042,3 +1053,102 @@ def gen_changes(rng, emap, ble):
                     if v is not None:
                         ch.append([a["aid"], c["iid"], v])
     return ch
+
+
+# ---------------------------------------------------------------------------------------
+# mixed-transport pairing files loaded by processes with fewer transports (spec/persist/PersistLoad.tla)
+# ---------------------------------------------------------------------------------------
+def _by_alias(lines):
+    out = {}
+    for ln in lines:
+        if ln.startswith("pairing/"):
+            alias, _end = json.JSONDecoder().raw_decode(ln, 8)          # pairing/<json alias>/...
+            out.setdefault(alias, []).append(ln)
+    return out
+
+
+def _file_order(bs):
+    """(alias, kind) in file order, read with the standard library"""
+    doc = json.loads(bs.decode("utf-8"), object_pairs_hook=list)
+    out = []
+    for alias, fields in doc:
+        d = dict(fields)
+        out.append((alias, d["Connection"] if "Connection" in d else "IP0"))
+    return out
+
+
+def transport_cases(job):
+    """worker: one file order (list of entry kinds) and the cases (enabled set, must-load indices) TLC exported
+    for it.  The file is produced by the real save_data of a process that has every transport; then, for every
+    enabled set, a fresh process with exactly those transports starts from it, saves, and the next one starts.
+    Returns [(enabled, phase, problem)] - problems are observations, the caller judges."""
+    import logging
+    import random
+    import tempfile
+    order, cases, seed, parent = job
+    rng = random.Random(seed)
+    d = tempfile.mkdtemp(prefix="c20t_", dir=parent)
+    logging.disable(logging.CRITICAL)          # "Skipped pairing: BLE" is expected, thousands of times
+    out = []
+    try:
+        aliases = rng.sample(ALIASES, len(order))
+        entries = []
+        for alias, kind in zip(aliases, order):
+            pd = gen_pairing(rng, "IP" if kind == "IP0" else kind)
+            if kind == "IP0":
+                pd.pop("Connection", None)
+            elif kind == "IP":
+                pd["Connection"] = "IP"
+            entries.append((alias, kind, pd))
+        ppath = os.path.join(d, PAIRING_FILE)
+
+        def build():
+            _cache, c = new_object_graph(d)
+            for alias, _kind, pd in entries:
+                c.load_pairing(alias, json.loads(json.dumps(pd)))
+            c.save_data(ppath)
+        in_loop(build)
+        want = [(a, k) for a, k, _ in entries]
+        if _file_order(open(ppath, "rb").read()) != want:
+            # the tree orders entries differently: produce the order under test with an independent writer
+            with open(ppath, "w", encoding="utf-8") as f:
+                json.dump({a: pd for a, _k, pd in entries}, f, ensure_ascii=False, indent=2)
+            if _file_order(open(ppath, "rb").read()) != want:
+                raise MachineryError("cannot produce the pairing file order under test")
+        original = open(ppath, "rb").read()
+        ref = restart(d, want_db=False)
+        if ref["exc"] is not None:
+            return [(list(ALL_TRANSPORTS), "reference", f"start-up with every transport fails: {ref['exc']}", original)]
+        ref_by = _by_alias(ref["pair"])
+        for case in cases:
+            en = tuple(case["enabled"])
+            with open(ppath, "wb") as f:
+                f.write(original)
+            for phase in ("restart", "load -> save -> restart"):
+                res, graph = restart_graph(d, want_db=False, enabled=en)
+                if res["exc"] is not None:
+                    out.append((list(en), phase, f"start-up fails ({res['stage']}: {res['exc']})", original))
+                    break
+                got = _by_alias(res["pair"])
+                bad = []
+                for j in case["must"]:
+                    alias = entries[j - 1][0]
+                    if alias not in got:
+                        bad.append(f"entry {j} ({entries[j - 1][1]}, alias {alias!r}) was not loaded")
+                    elif got[alias] != ref_by.get(alias):
+                        diff = sorted(set(got[alias]) ^ set(ref_by.get(alias, [])))[:4]
+                        bad.append(f"entry {j} ({entries[j - 1][1]}, alias {alias!r}) differs: {diff}")
+                if bad:
+                    out.append((list(en), phase, "; ".join(bad), original))
+                    break
+                if phase == "restart":
+                    try:
+                        in_loop(graph[1].save_data, ppath)
+                    except Exception as ex:  # noqa: BLE001
+                        out.append((list(en), "save", f"save_data raised {type(ex).__name__}: {ex}".replace(d, "<dir>"),
+                                    original))
+                        break
+    finally:
+        logging.disable(logging.NOTSET)
+        shutil.rmtree(d, ignore_errors=True)
+    return out
